@@ -187,3 +187,11 @@ def __getattr__(name):
     if name in ns:
         return ns[name]
     raise AttributeError(name)
+
+
+def lit(k, v):
+    """a task whose value is the literal `v` (used by the views check)"""
+    return v
+
+
+lit.__module__ = __name__
